@@ -261,6 +261,7 @@ def judge(case, events, states, initial, deadlock=None):
     end = [None] * n
     wrote = [dict() for _ in range(n)]         # pk -> steps of write ops
     txs = []                                   # committed transactions in commit order: (actor, commit step, effects)
+    holder = set()                             # actors that locked a row or created an object at some point
 
     def close_tx(i, step):
         for pk, since in protected[i].items():
@@ -325,6 +326,10 @@ def judge(case, events, states, initial, deadlock=None):
             continue
         rec = ev['value']
         current[i].extend(rec['eff'])
+        if rec['locked'] or any(e[0] == 'c' for e in rec['eff']):
+            holder.add(i)
+        if any(e[0] == 'c' for e in rec['eff']):
+            v.classes.add('created')
         for pk in rec['locked']:
             protected[i].setdefault(pk, ev['step'])
             v.classes.add('for_update')
@@ -356,6 +361,18 @@ def judge(case, events, states, initial, deadlock=None):
             if pk in wrote[i] and first[i] < until and (end[i] is None or end[i] > since):
                 v.nontrivial = True
                 v.classes.add('contended')
+    # ... or a session that holds a lock / a created object rewrote another row that a concurrent session changed meanwhile
+    locked_ever = {}
+    for (j, pk, since, until) in windows:
+        locked_ever.setdefault(j, set()).add(pk)
+    for i in holder:
+        for (t, cstep, eff) in txs:
+            if t == i or first[i] is None or not (first[i] < cstep and (end[i] is None or cstep < end[i])):
+                continue
+            for e in eff:
+                if e[0] == 'w' and e[1] in wrote[i] and e[1] not in locked_ever.get(i, ()):
+                    v.nontrivial = True
+                    v.classes.add('otherrow')
     return v
 
 
